@@ -348,6 +348,18 @@ func stableExpr(c *Ctx, e ast.Expr, reads *[]string) int {
 	switch t := e.(type) {
 	case *ast.UnaryExpr:
 		if t.Op == token.AND && chain(t.X) {
+			// the address is computed from the chain's base variable: the body must not assign that variable
+			x := ast.Unparen(t.X)
+			for {
+				if se, ok := x.(*ast.SelectorExpr); ok {
+					x = ast.Unparen(se.X)
+					continue
+				}
+				break
+			}
+			if id, ok := x.(*ast.Ident); ok {
+				*reads = append(*reads, "&"+id.Name)
+			}
 			return 1
 		}
 		return 0
@@ -490,6 +502,36 @@ func tableLoop(c *Ctx, rs *ast.RangeStmt) (tableSpec, bool) {
 	if !okUses {
 		return sp, false
 	}
+	// the base variable of an address element is not assigned in the body
+	for _, rd := range reads {
+		if !strings.HasPrefix(rd, "&") {
+			continue
+		}
+		base := rd[1:]
+		okBase := true
+		ast.Inspect(rs.Body, func(n ast.Node) bool {
+			switch t := n.(type) {
+			case *ast.AssignStmt:
+				for _, l := range t.Lhs {
+					if identName(l) == base {
+						okBase = false
+					}
+				}
+			case *ast.IncDecStmt:
+				if identName(t.X) == base {
+					okBase = false
+				}
+			case *ast.UnaryExpr:
+				if t.Op == token.AND && identName(t.X) == base {
+					okBase = false
+				}
+			}
+			return true
+		})
+		if !okBase {
+			return sp, false
+		}
+	}
 	if level == 2 {
 		// the elements read variables: the body must not be able to change what they read
 		safe := true
@@ -546,6 +588,9 @@ func plainTarget(c *Ctx, l ast.Expr, reads []string, valName string) bool {
 			}
 			text := types.ExprString(ast.Unparen(l))
 			for _, rd := range reads {
+				if strings.HasPrefix(rd, "&") {
+					continue
+				}
 				if rd == text || strings.HasPrefix(rd, text+".") || strings.HasPrefix(text, rd+".") {
 					return false
 				}
